@@ -922,8 +922,11 @@ func C06(ps *spec.Plan, t *Trace, final *spec.PlanView) []ev.Violation {
 						break
 					}
 				}
-				if !ran {
-					add("bypass-fail-skipped", lvl, "a bypass check of %s failed but nothing else of the scope was invoked", sc.name)
+				// "runs normally" includes being stopped by something else (e.g. a plan-level continuous check
+				// that fails before the first launch): only a scope that ends Completed without having run
+				// anything was treated as bypassed
+				if !ran && st == spec.Completed {
+					add("bypass-fail-skipped", lvl, "a bypass check of %s failed but nothing else of the scope was invoked and the scope ended Completed", sc.name)
 				}
 				if st == spec.Failed && !anythingElseFailed(ps, t, final, sc.name) {
 					add("bypass-fail-failed-scope", lvl, "a bypass check of %s failed, nothing else failed, yet the scope ended Failed", sc.name)
